@@ -252,11 +252,11 @@ theorem C01_reachable (cfg : Cfg) (st : St) (h : IdsBelow st) :
 
 /-! ### non-vacuity: a call with two detections competing for one track -/
 private def cfg0 : Cfg := { maxIdle := 2, histLen := 3, batchIds := false, thr := 300000 }
-private def st0 : St := { epochs := [(0, 1)], live := [⟨1, 0, 1, 1, none, [1], false⟩], nextId := 1 }
-example : (predictScene cfg0 st0 0 [⟨2, none⟩, ⟨3, some 7⟩] [⟨0, 1, 500000⟩, ⟨1, 1, 800000⟩]
+private def st0 : St := { epochs := [(0, 1)], live := [(Trk.simple 1 0 1 1 none [1])], nextId := 1 }
+example : (predictScene cfg0 st0 0 [(Det.simple 2 (none)), (Det.simple 3 (some 7))] [⟨0, 1, 500000⟩, ⟨1, 1, 800000⟩]
     [.fresh 2, .cont 1 false] 0 0).map (fun r => r.2.map (·.id)) = some [2, 1] := by decide +kernel
 /-- the greedy choice (first detection takes the track) is rejected: it is not of maximum weight -/
-example : predictScene cfg0 st0 0 [⟨2, none⟩, ⟨3, some 7⟩] [⟨0, 1, 500000⟩, ⟨1, 1, 800000⟩]
+example : predictScene cfg0 st0 0 [(Det.simple 2 (none)), (Det.simple 3 (some 7))] [⟨0, 1, 500000⟩, ⟨1, 1, 800000⟩]
     [.cont 1 false, .fresh 2] 0 0 = none := by decide +kernel
 
 end SimVerif.C01
